@@ -17,7 +17,7 @@ PROPS = {
                  "(system_refines_table) — Lean theorems by invariant over all event lists; tied to the code by byte- and clock-exact correspondence of "
                  "the real server.New + Run on the virtual segment (sequential scripts under a virtual clock) and by real-time bursts of overlapping "
                  "packets, with an independent grant-overlap monitor on the tapped frames.",
-        "props": ["C01"],
+        "props": ["C01", "C02Code"],
         "streams": [{"test": "TestSrvSeq", "names": ["srvseq"], "timeout": 300}, {"test": "TestSrvConc", "names": ["srvconc"], "timeout": 300}],
         "rule": "corpus (D1-D3 histories) first; random configurations (prefix /24../30, pools of 1-8 addresses at start/middle/end, 0-2 static entries, "
                 "static_only 10%), 1-8 hosts with none / derived / custom / short / forged client identifiers, 5-45 messages of 19 kinds (DISCOVER, four "
@@ -35,7 +35,7 @@ PROPS = {
                  "fromTo_excludes), is not the server's own, and is in the enabled dynamic range unless it is the static address of that hardware "
                  "address; static_only blocks everything else (handed_out_allowed, static_only_blocks_dynamic, ranges_fixed) — Lean theorems over all "
                  "interleavings; correspondence and yiaddr-vs-configuration monitor as for C01.",
-        "props": ["C02", "C11Code"],
+        "props": ["C02", "C11Code", "C02Code"],
         "streams": [{"test": "TestSrvSeq", "names": ["srvseq"], "timeout": 300}, {"test": "TestCfgNew", "names": ["cfgnew"], "timeout": 300}],
         "rule": "as C01 (configurations enumerate range positions, statics inside/outside the range, static_only; suggestions drawn from {in range, "
                 "below/above range, network/broadcast address, server address, other network, 0.0.0.0, a static, the host's last offer}) plus the "
@@ -48,7 +48,7 @@ PROPS = {
                  "state, for every client identifier / requested address / oracle (static_exclusive, static_only_address, static_always_offered, "
                  "sduid_injective) — Lean theorems; correspondence and monitor as for C01 (reserved hosts take part in 70% of the scripts, with "
                  "and without client identifiers, and forged-identifier messages name reserved hosts and the server).",
-        "props": ["C03"],
+        "props": ["C03", "C02Code"],
         "streams": [{"test": "TestSrvSeq", "names": ["srvseq"], "timeout": 300}],
         "rule": "as C01; non-trivial = the server answered",
         "trusted": ["as C01"],
@@ -161,7 +161,7 @@ PROPS = {
                  "without it (junk_interleaving); the client side is C14's catch_never_panics / ignored_have_no_effect — Lean theorems; junk frames "
                  "through the real Run loop inside server scripts, mutated and random bytes through the real decoders and the real catchReply, with "
                  "recover() turning a panic into a reported case.",
-        "props": ["C10", "C14", "C13Code", "C12Code"],
+        "props": ["C10", "C14", "C13Code", "C12Code", "C14Code"],
         "streams": [{"test": "TestSrvSeq", "names": ["srvseq"], "timeout": 300}, {"test": "TestWire", "names": ["wire"], "timeout": 300}, {"test": "TestDhcp", "names": ["dhcp"], "timeout": 300},
                     {"test": "TestCliCatch", "names": ["clicatch"], "timeout": 300}, {"test": "TestCliAuto", "names": ["cliauto"], "timeout": 300}],
         "rule": "structure-aware mutations of valid frames (length fields, IHL incl. short packets with large IHL, truncation anywhere, option bytes, hlen "
@@ -194,7 +194,7 @@ PROPS = {
                  "exactly when every conjunct of the property holds; every other packet is ignored without effect; the receive path never indexes out "
                  "of range — Lean theorems over all byte strings / decoded messages. Tied to the code by running the real catchReply + verifiers on the "
                  "virtual segment over every combination of violated conjuncts x 4 waiting states, plus mutated frames.",
-        "props": ["C14"],
+        "props": ["C14", "C14Code"],
         "streams": [{"test": "TestCliCatch", "names": ["clicatch"], "timeout": 600}],
         "rule": "all 2^11 combinations of violated conjuncts (quick: all singles and pairs + 1/8 of the rest; thorough: all) x {offer, selecting, renewing, "
                 "rebinding}, each violation drawn from its variants (absent / zero / broadcast / wrong length / wrong value), lease boundaries 59/60/61 s, "
